@@ -108,12 +108,20 @@ def strategy(draw, tier="quick"):
     tnames = draw(st.sampled_from([["TA", "TB", "TC"]] * 3 + [["T", "T_0", "T_1"], ["N", "N_1", "N_2"], ["A", "A_0", "AA"], ["X0", "X_0", "X1"], ["T1", "T_1", "T__1"]]))[:nt]
     terms = []
     for i, n in enumerate(tnames):
-        terms.append([n, draw(tdef(chars, tnames[:i]))])
+        if terms and draw(st.integers(0, 6)) == 0:
+            terms.append([n, draw(st.sampled_from([t[1] for t in terms]))])  # two terminals with the same pattern
+        else:
+            terms.append([n, draw(tdef(chars, tnames[:i]))])
     ignore = []
     charset = list(chars)
     if draw(st.integers(0, 9)) < 4:
         charset.append(" ")
-        terms.append(["WS", draw(st.sampled_from([["str", " ", False], ["re", ["rep", ["lit", " "], 1, None]], ["re", ["cls", [["ch", " "], ["ch", chars[0]]], False]]]))])
+        wsdef = draw(st.sampled_from([["str", " ", False], ["re", ["rep", ["lit", " "], 1, None]], ["re", ["cls", [["ch", " "], ["ch", chars[0]]], False]]]))
+        if draw(st.integers(0, 5)) == 0:
+            # an ordinary terminal with exactly the ignored terminal's pattern (defined before it)
+            terms.append(["SP", wsdef])
+            tnames = tnames + ["SP"]
+        terms.append(["WS", wsdef])
         ignore.append("WS")
         if draw(st.integers(0, 3)) == 0:
             terms.append(["CM", ["str", chars[-1] + " ", False]])
